@@ -404,13 +404,11 @@ impl VarIntEncoder {
         let first_bytes = self.encode_leb128_u64(values[0])?;
         result.extend_from_slice(&first_bytes);
         
-        // Write deltas
+        // Write deltas: difference modulo 2^64, zigzag coded.  (A sign bit plus a
+        // 64-bit magnitude does not fit into a u64: [0, u64::MAX] lost its top bit.)
         for i in 1..values.len() {
-            let delta = if values[i] >= values[i-1] {
-                (values[i] - values[i-1]) << 1 // Positive delta, LSB = 0
-            } else {
-                ((values[i-1] - values[i]) << 1) | 1 // Negative delta, LSB = 1
-            };
+            let diff = values[i].wrapping_sub(values[i-1]) as i64;
+            let delta = ((diff << 1) ^ (diff >> 63)) as u64;
             
             let delta_bytes = self.encode_leb128_u64(delta)?;
             result.extend_from_slice(&delta_bytes);
@@ -466,13 +464,8 @@ impl VarIntEncoder {
             let (encoded_delta, delta_bytes) = self.decode_leb128_u64(&data[offset..])?;
             
             let prev_value = result[result.len() - 1];
-            let next_value = if (encoded_delta & 1) == 0 {
-                // Positive delta
-                prev_value + (encoded_delta >> 1)
-            } else {
-                // Negative delta
-                prev_value - (encoded_delta >> 1)
-            };
+            let diff = ((encoded_delta >> 1) as i64) ^ (-((encoded_delta & 1) as i64));
+            let next_value = prev_value.wrapping_add(diff as u64);
             
             result.push(next_value);
             offset += delta_bytes;
